@@ -138,11 +138,13 @@ def tagOf (d : DS) (e : Expr) : String :=
   if d.tainted || !Spec.noCarry d.s e then "shift-shard-edge" else "eval"
 
 def both (d : DS) (f : St → Except Err (St × String)) : DS × Ans :=
+  -- once a Store of a carrying Shift made the stored sets differ, later `changed` results may differ too
+  let tag := if d.tainted then "shift-shard-edge" else "write"
   match f d.m, f d.s with
-  | .ok (m', om), .ok (s', os) => ({ d with m := m', s := s' }, ans2 om os "write")
-  | .error e, .ok (s', os) => ({ d with s := s' }, ans2 e.text os "write")
-  | .ok (m', om), .error e => ({ d with m := m' }, ans2 om e.text "write")
-  | .error e1, .error e2 => (d, ans2 e1.text e2.text "write")
+  | .ok (m', om), .ok (s', os) => ({ d with m := m', s := s' }, ans2 om os tag)
+  | .error e, .ok (s', os) => ({ d with s := s' }, ans2 e.text os tag)
+  | .ok (m', om), .error e => ({ d with m := m' }, ans2 om e.text tag)
+  | .error e1, .error e2 => (d, ans2 e1.text e2.text tag)
 
 def step (d : DS) (ws : List String) : DS × Ans :=
   let bad := (d, ans "bad-op")
